@@ -7,8 +7,7 @@ import FranzVerif.Model.C34
               for u in users, h in hosts, o in ops: anyAllowedACL(u@h, rt, o)
         model: `Model.C34.allowedACL` / `anyAllowedACL`
         Spec : every implementation bit against `Spec.authorize` / `Spec.authorizeByResourceType` with
-               super users `principal(s)`; an any-bit whose operation is DESCRIBE / DESCRIBE_CONFIGS is not judged
-               (Kafka's by-resource-type check does not apply implied operations; no kfake request asks for them)
+               super users `principal(s)`, for every operation (DESCRIBE / DESCRIBE_CONFIGS included)
   wire <acls> | 5 bits   InitProducerID accepted for user a, user b without transactional id, and for user a with
                transactional ids a, ab, b; client host 127.0.0.1, super user admin
         model: `initProducerIDAuthorized`;  Spec: `Spec.initProducerID`
@@ -20,8 +19,10 @@ import FranzVerif.Model.C34
   `anyallowed-other` (kfake allows, Kafka denies, and Kafka would deny even with every DENY entry removed),
   `anyallowed-ignores-deny` (kfake allows, Kafka denies, and Kafka would allow if the DENY entries were removed:
   the answer is the one the ACL set without its DENY entries deserves).
-  Not judged (`-`): ACLs disabled, an entry outside Kafka's domain (permission not ALLOW/DENY, pattern not
-  LITERAL/PREFIXED), or "" / "ANONYMOUS" configured as a super user. -/
+  The last class is the defect repaired by /repo 46d17aa; the key is kept so that a regression is reported under it.
+  Not judged (`-`): ACLs disabled, or "" / "ANONYMOUS" configured as a super user. With an entry outside Kafka's
+  domain (permission not ALLOW/DENY, pattern not LITERAL/PREFIXED) in the set, only the any-resource bits are judged
+  (theorem (2) has no well-formedness hypothesis; `allowed` has a quirk there). -/
 open Driver Model.C34
 
 def str (s : String) : Str := if s == "~" then [] else s.toUTF8.toList
@@ -72,9 +73,9 @@ def judgeAny (supers : List Str) (acls : List Acl) (q : Req) (impl : Bool) : Sev
   else .anyOther
 
 def judged (c : Cfg) : Bool :=
-  c.enableACLs && decide (∀ a ∈ c.acls, a.WF) && decide c.noAnonSuper
+  c.enableACLs && decide c.noAnonSuper
 
-def anyJudged (op : Nat) : Bool := decide (notImplied op)
+def allowedJudged (c : Cfg) : Bool := decide (∀ a ∈ c.acls, a.WF)
 
 def tab (enable : Bool) (supers : List Str) (rt : Nat) (users hosts names : List Str) (ops : List Nat)
     (acls : List Acl) (impl : String) : String :=
@@ -96,10 +97,10 @@ def tab (enable : Bool) (supers : List Str) (rt : Nat) (users hosts names : List
       if ib.length != qsA.length + qsB.length then Sev.badOutput.verdict else
       let iA := ib.take qsA.length
       let iB := ib.drop qsA.length
-      let sA := (qsA.zip iA).foldl (fun s ((u, h, n, o), b) =>
+      let sA := if !allowedJudged c then Sev.ok else (qsA.zip iA).foldl (fun s ((u, h, n, o), b) =>
         if Spec.authorize sp acls ⟨principal u, h, n, rt, o⟩ == b then s else s.max .allowedMismatch) Sev.ok
       let sB := (qsB.zip iB).foldl (fun s ((u, h, o), b) =>
-        if anyJudged o then s.max (judgeAny sp acls ⟨principal u, h, [], rt, o⟩ b) else s) sA
+        s.max (judgeAny sp acls ⟨principal u, h, [], rt, o⟩ b)) sA
       sB.verdict
   s!"{model} | {verdict} | {boolStr nt}"
 
@@ -113,7 +114,7 @@ def wire (acls : List Acl) (impl : String) : String :=
   let sp := c.superusers.map principal
   let nt := acls.any fun a => a.perm == permAllow && (a.principal == principal (str "a") || a.principal == userStar) && (a.host == wireHost || a.host == star)
   let verdict :=
-    if !judged c then "-" else
+    if !(judged c && allowedJudged c) then "-" else
     match parseBits impl with
     | none => Sev.badOutput.verdict
     | some ib =>
